@@ -643,13 +643,22 @@ class _WorkerCtx:
     def match_known(self, signature):
         return None
 
+    def kept_fails(self, per_signature=4):
+        """At most a few failures per signature, so that a flood of one kind cannot hide another."""
+        seen, out = {}, []
+        for f in self.fails:
+            seen[f[2]] = seen.get(f[2], 0) + 1
+            if seen[f[2]] <= per_signature:
+                out.append(f)
+        return out
+
 
 def _worker(args):
     seed, n, big_every = args
     w = _WorkerCtx(DRIVER)
     cases = _gen_batch((seed, n, big_every))
     check_cases(w, cases)
-    return w.cases, w.hist, w.fails[:20], w.disagreements[:20], w.ncompared, w.driver.lines
+    return w.cases, w.hist, w.kept_fails(), w.disagreements[:20], w.ncompared, w.driver.lines
 
 
 def merge_worker(ctx, res):
